@@ -192,7 +192,17 @@ def webfingerOp (j : Json) : Except String Res := do
   let asExpected := recorded.all fun raw => some raw == expected
   -- the model does not predict success (DNS/TLS decide whether the hand-built host is reachable):
   -- it states what may be on the wire if anything is
-  pure { model := impl,
+  -- when the lookup reached the simulator, the answer is read the way the model reads it
+  let predicted : Option Json :=
+    if recorded.length != 1 then none
+    else match (j.getObjVal? "jrd").toOption with
+      | some t => match toJVal t with
+        | .ok (.obj o) => some (match Pub.webfingerLink o with
+            | .ok l => Json.mkObj [("ok", js l), ("requests", (impl.getObjVal? "requests").toOption.getD Json.null)]
+            | .error _ => Json.mkObj [("err", true), ("requests", (impl.getObjVal? "requests").toOption.getD Json.null)])
+        | _ => none
+      | none => none
+  pure { model := predicted.getD impl,
          preds := [("requests_wellformed", wellFormed), ("request_is_the_webfinger_query", asExpected),
                    ("at_most_one_request", recorded.length ≤ 1), ("no_plaintext_connection", canary == 0)],
          nontrivial := !recorded.isEmpty }
